@@ -286,6 +286,28 @@ def renderGapped (d : List (List XmlEv × Elem)) (tail : List XmlEv) : List XmlE
   [.other, .start .other [.ok [0x78#8] (some [0x79#8])], .start .other []]
     ++ (d.map fun x => x.1 ++ renderElem x.2).flatten ++ tail ++ [.end_ .other, .end_ .other]
 
+/-- elements whose content is a text: the event after their start tag is read as that text -/
+def readsText : Tag → Bool
+  | .SHORT_NAME | .BYTE_LENGTH | .SEQUENCE_NUMBER | .PDU_TYPE | .FRAME_TYPE | .APPLICATION_ID
+  | .CONTEXT_ID | .MESSAGE_INFO | .MESSAGE_TYPE | .DESC => true
+  | _ => false
+
+/-- the significant events of a file: without comments, processing instructions, CDATA, text
+    outside the text elements (white space) and unknown elements, wherever they stand - except
+    directly behind the start tag of a text element, where the next event IS the text -/
+def significant : List XmlEv → List XmlEv
+  | [] => []
+  | .other :: rest => significant rest
+  | .text _ :: rest => significant rest
+  | .err :: rest => .err :: significant rest
+  | .end_ t :: rest => if t = .other then significant rest else .end_ t :: significant rest
+  | .empty t a :: rest => if t = .other then significant rest else .empty t a :: significant rest
+  | .start t a :: [] => if t = .other then [] else [.start t a]
+  | .start t a :: x :: rest =>
+    if t = .other then significant (x :: rest)
+    else if readsText t then .start t a :: x :: significant rest
+    else .start t a :: significant (x :: rest)
+
 -- documents the layout above can express ----------------------------------------------
 
 /-- an optional text element is only written for a non-empty text -/
